@@ -5,6 +5,7 @@ import (
 	"context"
 	"fmt"
 	"math/rand"
+	"strings"
 
 	"perkeep.org/pkg/blob"
 	"perkeep.org/pkg/blobserver/memory"
@@ -19,8 +20,23 @@ const packThreshold = 512 << 10 // documented: files under this size are not pac
 type fileSpec struct {
 	Name    string `json:"name"`
 	Size    int    `json:"size"`
-	Content string `json:"content"` // random | periodic | zeros | as:<name> (same bytes as another file of the case)
+	Content string `json:"content"` // random | periodic | zeros | as:<name> (same bytes as another file of the case) | ext:<name> (that file's bytes followed by Size fresh random bytes)
 	Period  int    `json:"period,omitempty"`
+	Order   string `json:"order,omitempty"` // overrides the case's upload order for this file
+}
+
+func lateOrder(o string) bool {
+	return o == "schema-only-early" || o == "chunk-after-last-schema" || o == "chunk-missing"
+}
+
+// big: a file whose crash points are not all enumerated (tens of MiB); its audits are lighter.
+func (w *world) big() bool { return w.Spec.Crash == "pack-writes" }
+
+func (w *world) orderOf(f *fileInfo) string {
+	if f.Spec.Order != "" {
+		return f.Spec.Order
+	}
+	return w.Spec.Order
 }
 
 // caseSpec is one file-upload history on a fresh blobpacked store.
@@ -29,7 +45,25 @@ type caseSpec struct {
 	Class  string     `json:"class"`
 	Files  []fileSpec `json:"files"`
 	MaxZip int        `json:"max_zip,omitempty"` // 0 = default 16 MiB
-	Order  string     `json:"order"`             // schema-last | schema-first | schema-middle
+	// Order: schema-last | schema-first | schema-middle (the file schema blob is always (re-)sent
+	// last, when every chunk is there), or one of the orders in which the last upload of the file
+	// schema blob does NOT see every chunk: schema-only-early (schema first, never re-sent),
+	// chunk-after-last-schema (one blob of the file arrives after the schema), chunk-missing (one
+	// blob of the file is never uploaded).
+	Order string `json:"order"`
+	// Interleave: "" = the files are uploaded one after the other; "chunks-first" = everything
+	// but the last schema upload of every file first, then those schema uploads in seeded order.
+	Interleave string `json:"interleave,omitempty"`
+	// Removes: client removes inside the live history (on the first file):
+	// chunk-before-schema-reupload | chunk-before-schema | after-pack.
+	Removes string `json:"removes,omitempty"`
+	// Crash: "" = every lower call is a crash point; "pack-writes" = only the writes of a pack
+	// (for files whose full enumeration would not fit the budget).
+	Crash string `json:"crash,omitempty"`
+	// LiveAudit: "" = after every lower write of run A; "pack-writes" = after the writes of a pack only.
+	LiveAudit string `json:"live_audit,omitempty"`
+	// Lower: "" = memory small/large/meta; "disk" = localdisk small, localdisk large, leveldb meta.
+	Lower string `json:"lower,omitempty"`
 	Loose  int        `json:"loose"`             // loose non-file blobs uploaded around the file
 	Seed   int64      `json:"seed"`
 	// TruncSearch: search a max zip size (below MaxZip) that makes the packer's size estimate
@@ -55,10 +89,14 @@ type fileInfo struct {
 	Schemas  int // schema blobs (file + bytes)
 }
 
-// upload is one client upload in the history.
+// upload is one client operation of the history: the upload of one blob or, when Remove is
+// set, one RemoveBlobs call.
 type upload struct {
-	Blob int `json:"blob"` // index into world.Universe
+	Blob   int   `json:"blob"`             // index into world.Universe (upload)
+	Remove []int `json:"remove,omitempty"` // universe indices (remove)
 }
+
+func (u upload) isRemove() bool { return len(u.Remove) > 0 }
 
 // world is everything a case needs, determined by the spec only.
 type world struct {
@@ -71,12 +109,18 @@ type world struct {
 	Ops      []upload
 	// dupStart: index into Ops where the uploads of the second (same-content) file start; -1 if none
 	DupStart int
+	// Late: universe indices of the blobs that the last schema upload of their file does not see
+	Late []int
 }
 
 func genContent(rng *rand.Rand, fs fileSpec, prev map[string][]byte) []byte {
 	switch {
 	case len(fs.Content) > 3 && fs.Content[:3] == "as:":
 		return prev[fs.Content[3:]]
+	case len(fs.Content) > 4 && fs.Content[:4] == "ext:":
+		tail := make([]byte, fs.Size)
+		rng.Read(tail)
+		return append(append([]byte{}, prev[fs.Content[4:]]...), tail...)
 	case fs.Content == "zeros":
 		return make([]byte, fs.Size)
 	case fs.Content == "periodic":
@@ -184,46 +228,170 @@ func buildWorld(cs caseSpec) (*world, error) {
 	// upload history
 	half := len(loose) / 2
 	for _, i := range loose[:half] {
-		w.Ops = append(w.Ops, upload{i})
+		w.Ops = append(w.Ops, upload{Blob: i})
 	}
-	for fidx, fi := range w.Files {
-		if fidx == 1 {
-			w.DupStart = len(w.Ops)
+	up := func(is ...int) []upload {
+		var o []upload
+		for _, i := range is {
+			o = append(o, upload{Blob: i})
 		}
-		var idx []int
+		return o
+	}
+	var bodies [][]upload // per file: everything but the last schema upload
+	var triggers [][]upload
+	for fidx, fi := range w.Files {
+		order := w.orderOf(fi)
+		var idx, fresh []int
 		for _, b := range fi.Blobs[:len(fi.Blobs)-1] {
-			idx = append(idx, add(b))
+			_, old := w.byRef[b.Ref]
+			i := add(b)
+			idx = append(idx, i)
+			if !old {
+				fresh = append(fresh, i)
+			}
 		}
 		sch := add(fi.Blobs[len(fi.Blobs)-1])
 		rng.Shuffle(len(idx), func(i, j int) { idx[i], idx[j] = idx[j], idx[i] })
-		var seq []int
-		switch cs.Order {
+		// late: the blob of the file that the last schema upload does not see
+		late := -1
+		switch order {
+		case "chunk-after-last-schema", "chunk-missing":
+			if len(fresh) == 0 {
+				return nil, fmt.Errorf("file %q has no blob of its own", fi.Spec.Name)
+			}
+			late = fresh[rng.Intn(len(fresh))]
+			w.Late = append(w.Late, late)
+			var rest []int
+			for _, i := range idx {
+				if i != late {
+					rest = append(rest, i)
+				}
+			}
+			idx = rest
+		}
+		var seq, tail []upload
+		switch order {
 		case "schema-first":
-			seq = append(append([]int{sch}, idx...), sch) // the client retries the schema blob at the end
+			seq = append(append(up(sch), up(idx...)...), up(sch)...) // the client retries the schema blob at the end
 		case "schema-middle":
 			m := len(idx) / 2
-			seq = append(append(append(append([]int{}, idx[:m]...), sch), idx[m:]...), sch)
-		default:
-			seq = append(idx, sch)
+			seq = append(append(append(up(idx[:m]...), up(sch)...), up(idx[m:]...)...), up(sch)...)
+		case "schema-only-early":
+			seq = append(up(sch), up(idx...)...)
+		case "chunk-after-last-schema":
+			seq = append(up(idx...), up(sch)...)
+			tail = up(late)
+		default: // schema-last, chunk-missing
+			seq = append(up(idx...), up(sch)...)
 		}
 		// duplicate uploads of a few chunks
 		nd := 1 + rng.Intn(3)
 		for d := 0; d < nd && len(idx) > 0; d++ {
 			pos := rng.Intn(len(seq))
-			seq = append(seq[:pos+1], append([]int{idx[rng.Intn(len(idx))]}, seq[pos+1:]...)...)
+			seq = append(seq[:pos+1], append(up(idx[rng.Intn(len(idx))]), seq[pos+1:]...)...)
 		}
-		// the trigger must stay last so that the pack sees every chunk
-		if seq[len(seq)-1] != sch {
-			seq = append(seq, sch)
+		switch order {
+		case "schema-only-early":
+			// the schema blob is never sent again: no upload of it sees every chunk
+		default:
+			// the last schema upload stays last (in the classic orders it then sees every chunk)
+			if seq[len(seq)-1].Blob != sch {
+				seq = append(seq, up(sch)...)
+			}
 		}
-		for _, i := range seq {
-			w.Ops = append(w.Ops, upload{i})
+		// client removes inside the history of the first file
+		if fidx == 0 && cs.Removes != "" {
+			if lateOrder(order) || len(fi.Chunks) == 0 {
+				return nil, fmt.Errorf("removes %q need an order that ends with the schema upload", cs.Removes)
+			}
+			c := w.byRef[fi.Chunks[rng.Intn(len(fi.Chunks))].Ref]
+			body, trig := seq[:len(seq)-1], seq[len(seq)-1]
+			switch cs.Removes {
+			case "chunk-before-schema-reupload":
+				// a chunk is removed and uploaded again before the pack
+				seq = append(append(body, upload{Remove: []int{c}}, upload{Blob: c}), trig)
+			case "chunk-before-schema":
+				// the pack trigger finds a chunk removed; chunk and schema are sent again later
+				seq = append(append(body, upload{Remove: []int{c}}), trig)
+				tail = append(tail, upload{Blob: c}, upload{Blob: sch})
+			case "after-pack":
+				// blobs of the packed file are removed in the live run and uploaded again
+				rm := []int{c, sch}
+				if len(idx) > 0 {
+					if o := idx[rng.Intn(len(idx))]; o != c {
+						rm = append(rm, o)
+					}
+				}
+				tail = append(tail, upload{Remove: rm}, upload{Blob: c}, upload{Blob: sch})
+			default:
+				return nil, fmt.Errorf("unknown removes %q", cs.Removes)
+			}
+		}
+		if order == "schema-only-early" {
+			bodies = append(bodies, seq)
+			triggers = append(triggers, tail)
+		} else {
+			bodies = append(bodies, seq[:len(seq)-1])
+			triggers = append(triggers, append([]upload{seq[len(seq)-1]}, tail...))
+		}
+	}
+	switch cs.Interleave {
+	case "chunks-first":
+		for _, b := range bodies {
+			w.Ops = append(w.Ops, b...)
+		}
+		perm := rng.Perm(len(triggers))
+		for _, fi := range perm {
+			w.Ops = append(w.Ops, triggers[fi]...)
+		}
+	default:
+		for fidx := range bodies {
+			if fidx == 1 && strings.HasPrefix(w.Files[1].Spec.Content, "as:") {
+				w.DupStart = len(w.Ops)
+			}
+			w.Ops = append(w.Ops, bodies[fidx]...)
+			w.Ops = append(w.Ops, triggers[fidx]...)
 		}
 	}
 	for _, i := range loose[half:] {
-		w.Ops = append(w.Ops, upload{i})
+		w.Ops = append(w.Ops, upload{Blob: i})
 	}
 	return w, nil
+}
+
+// model replays the first n operations of the history (all acknowledged) and the operation
+// inflight (an index into Ops, or -1) that was running at the crash: present = certainly
+// there, unc = may or may not be there (DESIGN A.1), removed = certainly gone by an
+// acknowledged remove.  Keys are universe indices.
+func (w *world) model(n, inflight int) (present, unc, removed map[int]bool) {
+	present, unc, removed = map[int]bool{}, map[int]bool{}, map[int]bool{}
+	for _, op := range w.Ops[:n] {
+		if op.isRemove() {
+			for _, i := range op.Remove {
+				if present[i] {
+					removed[i] = true
+				}
+				delete(present, i)
+			}
+			continue
+		}
+		present[op.Blob] = true
+		delete(removed, op.Blob)
+	}
+	if inflight >= 0 && inflight < len(w.Ops) {
+		op := w.Ops[inflight]
+		if op.isRemove() {
+			for _, i := range op.Remove {
+				if present[i] {
+					unc[i] = true
+				}
+			}
+		} else if !present[op.Blob] {
+			unc[op.Blob] = true
+			delete(removed, op.Blob)
+		}
+	}
+	return
 }
 
 func (w *world) fileByWhole(ref blob.Ref) []*fileInfo {
